@@ -5,6 +5,9 @@
    precedence, that the sequential specification (Repo.step) explains — results and read-back included. *)
 From GK Require Import Lin.
 From GK.Proofs Require Import LinProofs.
+From GK Require Import SrcFacts.
+From GK Require PropCheck.
+From GK.Proofs Require SrcProofs.
 
 Theorem C10_checker_sound : forall c x, lin_check c x = true ->
   exists s order, seq_run c [] (lc_pre x) = Some s
@@ -27,3 +30,46 @@ Theorem C10_respects_real_time : forall c s pending order,
   forall x rest, order = x :: rest -> forall y, In y pending -> (c_inv x <= c_ret y)%nat.
 Proof. exact linearization_respects_real_time. Qed.
 Print Assumptions C10_respects_real_time.
+
+(* ---- the mechanisms, re-extracted from the Go source on every run (tools/go2coq -> obligations
+   `inmem_discipline_ok inmem_lock_facts = true`, `ent_discipline_ok ent_update_facts = true`, proved by vm_compute on
+   the generated facts). What passing those obligations means: *)
+Theorem C10_mutators_hold_the_exclusive_lock : forall fs, inmem_discipline_ok fs = true ->
+  forall n, In n inmem_mutators ->
+  exists f, In f fs /\ lf_name f = n /\ lf_lock f = LExcl /\ lf_deferred f = true
+            /\ forall x, In x (lf_pre f) -> ~ In x inmem_shared.
+Proof. exact SrcProofs.inmem_discipline_mutators. Qed.
+Print Assumptions C10_mutators_hold_the_exclusive_lock.
+
+Theorem C10_readers_hold_the_lock : forall fs, inmem_discipline_ok fs = true ->
+  forall n, In n inmem_readers ->
+  exists f, In f fs /\ lf_name f = n /\ lf_lock f <> LNone /\ lf_deferred f = true
+            /\ forall x, In x (lf_pre f) -> ~ In x inmem_shared.
+Proof. exact SrcProofs.inmem_discipline_readers. Qed.
+Print Assumptions C10_readers_hold_the_lock.
+
+(* ent: each transition is one UPDATE guarded by the state the specification guards with, installed before anything is
+   executed and before the row is read; only the specification's target states are set (all allowed edges) *)
+Theorem C10_ent_one_guarded_update_per_transition : forall fs, ent_discipline_ok fs = true ->
+  forall n, In n ent_methods ->
+  exists f g ys pre, In f fs /\ ef_name f = n /\ spec_edge n = Some (g, ys)
+    /\ prefix_to_exec (ef_events f) = Some pre
+    /\ ~ In EvRead pre
+    /\ guards_of (ef_events f) = [g]
+    /\ (forall y, In y (sets_of (ef_events f)) -> In y ys /\ PropCheck.allowed_tr g y = true).
+Proof. exact SrcProofs.ent_discipline_meaning. Qed.
+Print Assumptions C10_ent_one_guarded_update_per_transition.
+
+(* the table the ent obligation compares with is the specification's own guard / replacement *)
+Theorem C10_spec_edges_are_the_models :
+  (forall c s now id t, lookup id s = Some t ->
+     step c s (OCancel false now id) = guarded t Scheduled err_kind_cancel s (set_cancelled t now)
+     /\ t_state (set_cancelled t now) = Cancelled)
+  /\ (forall c s now id t, lookup id s = Some t ->
+     step c s (ODispatch false now id) = guarded t Scheduled err_kind_dispatch s (set_dispatched t now)
+     /\ t_state (set_dispatched t now) = Dispatched)
+  /\ (forall c s now id e t, lookup id s = Some t ->
+     step c s (ODone false now id e) = guarded t Dispatched err_kind_done s (set_done t now e)
+     /\ (t_state (set_done t now e) = Done \/ t_state (set_done t now e) = Err)).
+Proof. exact SrcProofs.spec_edge_is_the_models. Qed.
+Print Assumptions C10_spec_edges_are_the_models.
